@@ -61,6 +61,8 @@ def _corpus_shard(mod, pid):
     """Replay tier: committed cases (minimised failures of fixed defects and seeded changes)."""
     acc = core.Acc()
     n = 0
+    if os.environ.get('VPX_NO_CORPUS'):      # sensitivity tooling only: what does generation find on its own?
+        return acc
     for f in sorted(glob.glob(os.path.join(core.VERIF, 'corpus', pid, '*.json'))):
         with open(f) as fh:
             rec = json.load(fh)
